@@ -39,10 +39,41 @@ def units(tier):
                 sp = dict(spec)
                 sp.update(free=True, oidlen=ol)
                 us.append({"name": f"{name}_oid{ol}", "shape": {"spec": sp}})
+    us.append({"name": "long_lists_1200", "shape": {"kind": "long", "n": 1200}})
     return us
 
 
+def _long(ctx, shape):
+    """long flat lists (thousands of names / oids / extension values / extensions): the text form
+    must still parse back to an equal definition - recursion or work that grows with the count"""
+    S = ctx.L.schema
+    n = shape["n"]
+    names = [f"n{i}" for i in range(n)]
+    def alpha(i):  # extension names are letters, hyphens and underscores only
+        out = ""
+        while True:
+            out = chr(65 + i % 26) + out
+            i //= 26
+            if not i:
+                return "E" + out
+
+    exts = {"A": [f"v{i}" for i in range(n)], **{alpha(i): ["x"] for i in range(n)}}
+    objs = [
+        S.ObjectClassDescription(oid="1.2", names=names, super_types=list(names), must=list(names), may=list(names), extensions=dict(exts)),
+        S.AttributeTypeDescription(oid="1.2", names=names, extensions=dict(exts)),
+        S.DITContentRuleDescription(oid="1.2", names=names, aux=list(names), must=list(names), may=list(names), never=list(names), extensions=dict(exts)),
+    ]
+    for obj in objs:
+        try:
+            back = type(obj).from_string(str(obj))
+        except Exception as e:  # noqa: BLE001
+            ctx.fail("long-definition-text-form-rejected", f"{type(obj).__name__}:{type(e).__name__}@{exc_site(e)}")
+        ctx.require(back == obj, "long-definition-reparsed-differs")
+
+
 def body(ctx, shape):
+    if shape.get("kind") == "long":
+        return _long(ctx, shape)
     spec = shape["spec"]
     _, obj, _ = SGm.gen(ctx, spec)
     C = SGm.klass(ctx, spec["cls"])
